@@ -125,15 +125,15 @@ inductive Emitted
   | semanticError
   deriving DecidableEq, Repr
 
-/-- `genDefVal` given the resolved base type: `isInt b` = base is Integer32/Integer, `isOid`, `isBits`;
-`enumOf` = the list found by `getBaseType`; `knownSym n` = n is a local or imported symbol -/
-def genDefVal (isInt isOid isBits : Bool) (enumOf : Option (List (Name × Int))) (knownSym : Name → Bool) :
+/-- `genDefVal` given the resolved base type: `isInt b` = base is Integer32/Integer, `isOid`, `isBits`, `isOctets` =
+base is OctetString; `enumOf` = the list found by `getBaseType`; `knownSym n` = n is a local or imported symbol -/
+def genDefVal (isInt isOid isBits isOctets : Bool) (enumOf : Option (List (Name × Int))) (knownSym : Name → Bool) :
     DefVal → Emitted
   | .num v => .decimal v
   | .hex ds => if isInt then .hexOfInt (match ds with | [] => 0 | _ => (parseDigits 16 ds 0).getD 0) else .hexDigits ds
   | .bin ds => if isInt then .binOfInt (match ds with | [] => 0 | _ => (parseDigits 2 ds 0).getD 0)
                else .hexOfBin (match ds with | [] => none | _ => (parseDigits 2 ds 0).map (fun v => ((ds.length + 3) / 4, v)))
-  | .str s => if s.isEmpty then .nothing else .string s       -- `""` is dropped for every base type (finding F14)
+  | .str s => if s.isEmpty && !isOctets then .nothing else .string s     -- `""` is kept on OCTET STRING only
   | .label n =>
     if isOid && knownSym n then .oidOf n
     else if isInt then
